@@ -24,7 +24,7 @@ RULE = ("each case: up to 25 operations over 4 paths, 4 content caps and small p
         "or any directory re-use in the third or a later backup.")
 LEVEL_TEXT = "Random histories against a dictionary model; the file system is a generated stat table."
 ASSUMPTIONS = ["should_check()/did_check_healthy (probabilistic re-checking) are exercised but not asserted", "paths are absolute (no cwd dependence)"]
-REQUIRED_CLASSES = ["reuse", "no-reuse-size", "no-reuse-mtime", "no-reuse-ctime", "no-reuse-timestamps-untrusted", "cap-shared-by-paths", "rename", "dir-reuse", "dir-changed", "forgot", "tool-file-reuse", "tool-file-upload", "tool-dir-reuse", "tool-subdir-reused-parent-recreated"]
+REQUIRED_CLASSES = ["reuse", "no-reuse-size", "no-reuse-mtime", "no-reuse-ctime", "no-reuse-timestamps-untrusted", "cap-shared-by-paths", "rename", "dir-reuse", "dir-changed", "forgot", "changed-during-upload", "tool-file-reuse", "tool-file-upload", "tool-dir-reuse", "tool-subdir-reused-parent-recreated"]
 BUDGET = {"quick": 600, "thorough": 3600}
 PATHS = ["/verif-fake/a", "/verif-fake/b", "/verif-fake/c", "/verif-fake/d é"]
 
@@ -40,8 +40,8 @@ op = st.one_of(
     st.tuples(st.just("create"), p, small, small, small, st.integers(0, 3)),
     st.tuples(st.just("change"), p, st.sampled_from(["size", "mtime", "ctime", "content", "size+mtime", "all"]), small),
     st.tuples(st.just("rename"), p, p),
-    st.tuples(st.just("backup"), p, st.sampled_from([True, True, True, False])),
-    st.tuples(st.just("backup"), p, st.just(True)),
+    st.tuples(st.just("backup"), p, st.sampled_from([True, True, True, False]), st.sampled_from([None, None, None, "size", "mtime", "ctime", "all"])),
+    st.tuples(st.just("backup"), p, st.just(True), st.sampled_from([None, None, "mtime", "ctime"])),
     st.tuples(st.just("forget"), p),
     st.tuples(st.just("dir"), st.lists(st.tuples(st.integers(0, 2), st.integers(0, 3)), max_size=3), st.booleans()),
     st.tuples(st.just("tick"), st.integers(1, 10 ** 7)),
@@ -385,6 +385,19 @@ def run_case(case, ctx):
                     ctx.check(got == exp, "wrong-cap" if got else "no-reuse", "%s: check_file(%s) returned %r; the most recent upload of this unchanged path recorded %r" % (desc, path, got, exp), got=bool(got))
                 if not got:
                     cap = b"URI:CHK:content-%d" % content
+                    if len(o) > 3 and o[3]:
+                        # the file changes while it is being uploaded (after the tool looked at it, before the upload is recorded): the record belongs to what was uploaded
+                        f = fs[path]
+                        w = o[3]
+                        if w in ("size", "all"):
+                            f[0] = 100 + (f[0] - 100 + 1) % 4
+                        if w in ("mtime", "all"):
+                            f[1] = 1000 + (f[1] - 1000 + 1) % 4
+                        if w in ("ctime", "all"):
+                            f[2] = 2000 + (f[2] - 2000 + 1) % 4
+                        f[3] = (f[3] + 1) % 4
+                        classes.add("changed-during-upload")
+                        hist.append(("changed-during-upload", o[1], w))
                     r.did_upload(cap)
                     forgotten.discard(cap)      # the upload re-creates the cap's row
                     rec[path] = (size, mtime, ctime, cap)
